@@ -52,8 +52,9 @@ SPECS = [
     [["{w}", "{w}"], ".", ["{p}", "{p}"], "f"],
     [">", ["{w !r}", "{w!r}"]],
     ["\\N{OX}>5"],
+    [],
 ]
-SPEC_NAMES = ["none", "literal", "field", "lit+field", "field.field", "field-with-conversion", "named-escape"]
+SPEC_NAMES = ["none", "literal", "field", "lit+field", "field.field", "field-with-conversion", "named-escape", "empty"]
 
 ENVS = [
     {"x": 42, "w": 6, "p": 2, "OX": "ox"},
@@ -206,9 +207,9 @@ def fields(exprs, convs, dbgs, specs, spacings):
 def pool(name):
     chunks = [["L", i] for i in range(len(CHUNKS))]
     if name == "full":
-        return chunks + fields(range(6), ["", "s", "r", "a"], [0, 1, 2], range(7), [0, 1])
+        return chunks + fields(range(6), ["", "s", "r", "a"], [0, 1, 2], range(len(SPECS)), [0, 1])
     if name == "med":
-        return chunks + fields(range(5), ["", "s", "r", "a"], [0, 1, 2], [0, 1, 3, 4], [0])
+        return chunks + fields(range(5), ["", "s", "r", "a"], [0, 1, 2], [0, 1, 3, 4, 7], [0])
     if name == "med3":
         return chunks[:7] + fields([0, 1, 2, 3], ["", "r"], [0, 1, 2], [0, 3, 4], [0])
     if name == "small":
